@@ -1242,7 +1242,11 @@ impl Gen {
                 let holders: Vec<u64> = e.users[1..5].iter().copied().filter(|h| e.bal(A::T(pm.lp), *h) > 0).collect();
                 let holder = if holders.is_empty() || r.chance(1, 10) { *r.pick(&e.users[1..5].to_vec()) } else { *r.pick(&holders) };
                 let b = e.bal(A::T(pm.lp), holder);
-                let amt = match r.below(8) { 0 => amt_rel(r, b), 1 => b, 2 => b.saturating_add(1), _ => b / (1 + r.below(20) as u128) + 1 };
+                let amt = match r.below(9) {
+                    0 => amt_rel(r, b), 1 => b, 2 => b.saturating_add(1),
+                    // around the burn at which the scarcer reserve's refund is exactly one unit (below it that refund is zero)
+                    3 => { let sup = e.supply(pm.lp); let m = r0.min(r1).max(1); ((sup / m).max(1) + r.below(3) as u128).saturating_sub(1).min(b).max(1) }
+                    _ => b / (1 + r.below(20) as u128) + 1 };
                 Op::TokSend { t: pm.lp, s: holder, d: pm.addr, amt, hook: Hook::Withdraw }
             }
             "lpmove" => {
